@@ -5,7 +5,7 @@ From Coq Require Import NArith List Bool.
 Import ListNotations.
 From Coq Require Import ZArith.
 From CXV Require Import Gen.TokTy Gen.ParserTables Parse.Balanced Gen.Blocks Parse.BlocksSM.
-From CXV Require Import Base.Regex Base.Cost Gen.LexRules Lex.PlyLoop Gen.StreamTables Stream.TokBuf Fmt.TokFmt.
+From CXV Require Import Base.Regex Base.Cost Gen.LexRules Lex.PlyLoop Gen.StreamTables Stream.TokBuf Fmt.TokFmt PP.Filters.
 Open Scope N_scope.
 
 Definition nlen {A} (l : list A) : N := N.of_nat (length l).
@@ -199,8 +199,32 @@ Fixpoint dec_vtoks (k : nat) (l : list N) : list vtok :=
 Definition run_tokfmt (args : list N) : list N :=
   match args with n :: r => tokfmt (dec_vtoks (N.to_nat n) r) | [] => [99] end.
 
+(* filters: args = kind (1 gcc, 2 pcpp, 3 msvc), fname (len-prefixed), nlines, lines (len-prefixed each)
+   -> kept lines, len-prefixed *)
+Fixpoint enc_lines (l : list (list N)) : list N :=
+  match l with [] => [] | x :: r => (nlen x :: x) ++ enc_lines r end.
+
+Definition run_filter (args : list N) : list N :=
+  match args with
+  | kind :: r =>
+      let '(fname, r1) := split_n r in
+      match r1 with
+      | n :: r2 =>
+          let '(lines, _) := split_strs (N.to_nat n) r2 in
+          let out := match kind with
+                     | 1 => gcc_filter fname lines
+                     | 2 => pcpp_filter fname lines
+                     | _ => msvc_filter lines
+                     end in
+          nlen out :: enc_lines out
+      | [] => [99]
+      end
+  | [] => [99]
+  end.
+
 Definition run_case (cmd : N) (args : list N) : list N :=
   match cmd, args with
+  | 50, _ => run_filter args
   | 40, _ => run_tokfmt args
   | 21, _ => run_lexcost args
   | 30, _ => run_stream args
